@@ -4,8 +4,8 @@ package main
 
 // explorenoinfo (C20): a probe attempt at a moment when the scrape manager has no client for the job (its HTTP client
 // could not be built at the last reload, or a reload is under way) is a FAILED probe: it has to be retried after the
-// retry interval until one succeeds. This path is not part of Model/Explore.v (there every probe reaches the target);
-// it is exercised here on the real Explore + scrape.Manager.
+// retry interval until one succeeds (Model/Explore.v dispatch, C20_no_client_is_a_failed_probe);
+// the dedicated run of this path (the histories of the explore engine have it as op jobinfo as well).
 
 import (
 	"context"
